@@ -108,6 +108,11 @@ def run_case(kind, idx, rng, sh):
             sh.violation('C14:.stab section is %s' % type(sec).__name__)
             return
         base = info['secs'][info['byname']['.stab']].offset
+        if rng.random() < 0.5:
+            # a walk given up after the first record (reading the N_UNDF header, say), then the full walk of the same object
+            for _ in zip(range(rng.choice([1, 2])), sec.iter_stabs()):
+                pass
+            sh.count('stab_walks_after_an_abandoned_walk')
         got = [(s['n_strx'], s['n_type'], s['n_other'], s['n_desc'], s['n_value'], s['n_offset'])
                for s in PoisonedIter(sec.iter_stabs(), [st], rng, sh.counters)]
         want = [r + (base + 12 * i,) for i, r in enumerate(recs)]
